@@ -22,6 +22,15 @@ class UserErr(Exception):
         self.code = code
 
 
+class UserBase(BaseException):
+    """a user exception that is not an Exception (the class of KeyboardInterrupt, SystemExit,
+    asyncio.CancelledError): a callback that lets one escape has failed like with any other exception"""
+
+    def __init__(self, code):
+        super().__init__(code)
+        self.code = code
+
+
 class UserStop(StopIteration):
     """a user exception that happens to be a StopIteration (e.g. next() on an exhausted iterator in a
     callback): it must propagate like any other exception"""
@@ -42,6 +51,19 @@ class Opq:
 
     def __repr__(self):
         return f"Opq({self.ident},{self.truthy})"
+
+
+class AnyEq(Opq):
+    """a truthy object that claims to be equal to everything (like unittest.mock.ANY): results must be
+    handled by identity, never by comparing them with library-internal markers"""
+
+    def __eq__(self, other):
+        return True
+
+    def __ne__(self, other):
+        return False
+
+    __hash__ = Opq.__hash__
 
 
 def evname(e):
@@ -77,6 +99,8 @@ def from_json(v):
         return [from_json(x) for x in v["l"]]
     if "t" in v:
         return tuple(from_json(x) for x in v["t"])
+    if v.get("eq"):
+        return AnyEq(v["o"], True)
     return Opq(v["o"], v["b"])
 
 
@@ -95,6 +119,8 @@ def to_json(v):
         return {"l": [to_json(x) for x in v]}
     if isinstance(v, tuple):
         return {"t": [to_json(x) for x in v]}
+    if isinstance(v, AnyEq):
+        return {"o": v.ident, "b": True, "eq": 1}
     if isinstance(v, Opq):
         return {"o": v.ident, "b": v.truthy}
     if asyncio.iscoroutine(v):
@@ -112,7 +138,7 @@ def sidx(state):
 
 def exn_json(e):
     from statemachine.exceptions import InvalidDefinition, InvalidStateValue, TransitionNotAllowed
-    if isinstance(e, (UserErr, UserStop)):
+    if isinstance(e, (UserErr, UserStop, UserBase)):
         return ["u", e.code]
     if isinstance(e, TransitionNotAllowed):
         return ["na", evidx(e.event), sidx(e.state)]
@@ -218,7 +244,7 @@ def _cb(p, kind, k, isg, kw):
         if act[0] == "send":
             try:
                 r = m.send(evname(act[1]), tag=act[2])
-            except Exception as e:  # noqa: BLE001 - recorded and re-raised: the callback does not catch
+            except (Exception, UserBase) as e:  # noqa: BLE001 - recorded and re-raised: the callback does not catch
                 R.log.append(["n", "x", exn_json(e)])
                 raise
             if asyncio.iscoroutine(r):
@@ -228,6 +254,8 @@ def _cb(p, kind, k, isg, kw):
                 r = None
             R.log.append(["n", "v", to_json(r)])
         else:
+            if RUN.sc.get("base_exc") and act[1] % 3 == 0:
+                raise UserBase(act[1])
             if RUN.sc.get("stop_iter") and not RUN.sc.get("async") and act[1] % 2:
                 raise UserStop(act[1])
             raise UserErr(act[1])
@@ -255,13 +283,15 @@ async def _acb_body(R, script, m):
                 r = m.send(evname(act[1]), tag=act[2])
                 if asyncio.iscoroutine(r) or isinstance(r, asyncio.Future):
                     r = await r
-            except Exception as e:  # noqa: BLE001
+            except (Exception, UserBase) as e:  # noqa: BLE001
                 R.log.append(["n", "x", exn_json(e)])
                 raise
             R.log.append(["n", "v", to_json(r)])
         elif act[0] == "yield":
             await asyncio.sleep(0)
         else:
+            if RUN.sc.get("base_exc") and act[1] % 3 == 0:
+                raise UserBase(act[1])
             raise UserErr(act[1])
     return from_json(script["r"])
 
@@ -297,6 +327,7 @@ def render_source(sc):
            "from harness.eng import _cb, _acb", ""]
 
     inst = []
+    wrapped_ = {tuple(x) for x in sc.get("wrapped_coros", [])}
 
     def methods(p, attrs, ind="    "):
         ls = []
@@ -309,7 +340,10 @@ def render_source(sc):
                 else:
                     ls.append(f"{ind}{cbname(nm)} = None      # a plain attribute: its value is assigned after attachment")
                 continue
-            if (p, kind, k) in acoros:
+            if (p, kind, k) in acoros and (p, kind, k) in wrapped_:
+                # a plain function that returns an awaitable (e.g. an async function behind an ordinary wrapper)
+                ls.append(f"{ind}def {cbname(nm)}(self, **kw): return _acb({p}, {kind}, {k}, {isg}, kw)")
+            elif (p, kind, k) in acoros:
                 ls.append(f"{ind}async def {cbname(nm)}(self, **kw): return await _acb({p}, {kind}, {k}, {isg}, kw)")
             else:
                 ls.append(f"{ind}def {cbname(nm)}(self, **kw): return _cb({p}, {kind}, {k}, {isg}, kw)")
@@ -710,7 +744,7 @@ class _Workers:
                 return
             try:
                 box["r"] = job()
-            except Exception as e:  # noqa: BLE001
+            except (Exception, UserBase) as e:  # noqa: BLE001
                 box["e"] = e
             done.set()
 
@@ -840,7 +874,7 @@ def run_impl(sc):
                         if driver == "loop" and (asyncio.iscoroutine(r) or isinstance(r, asyncio.Future)):
                             r = await r
                     out = ["v", to_json(r)]
-                except Exception as e:  # noqa: BLE001
+                except (Exception, UserBase) as e:  # noqa: BLE001
                     out = ["x", exn_json(e)]
                 sm = box["sm"]
                 fv = getattr(box["model"], "state", None)
